@@ -94,7 +94,8 @@ Definition lit_ok (t : str) : bool :=
 (* trees whose texts are printable: variables and integers non-negative, literals as above, the operators of the templates *)
 Fixpoint text_ok (e : pexpr) : bool :=
   match e with
-  | PVar k | PInt k => 0 <=? k
+  | PVar k => 0 <=? k
+  | PInt k => (0 <=? k) && (k <=? 9223372036854775807)
   | PLitc t => lit_ok t
   | POp1 f a => existsb (Z.eqb f) [SIN; COS; SINH; COSH; EXPONENTIAL; LOGARITHM; ABS; SQRT] && text_ok a
   | PAdd a b | PSub a b | PSafe a b => text_ok a && text_ok b
